@@ -80,6 +80,17 @@ def _box(tier):
             if s >= 1:
                 for c8 in ([8, 8, 16, 16], [8, 40, 16, 16], [24, 8, 0, 0]):
                     yield {"cls": "Revolve", "n": n, "s": s, "c8": c8, "passes": 1}
+    # dense (n, s) grid beyond the all-splits box: defects of a step-size rule or a DP are sparse in (n, s)
+    N2 = 64 if tier == "quick" else 150
+    for n in range(N + 1, N2 + 1):
+        for s in range(1, n + 1):
+            for ram, disk in ((s, 0), (0, s), (1, s - 1)):
+                if disk < 0 or (ram, disk) == (1, 0) and s != 1:
+                    continue
+                for tr in ("maximum", "revolve"):
+                    yield {"cls": "Multistage", "n": n, "ram": ram, "disk": disk, "traj": tr, "passes": 1}
+            for c8 in ([8, 8, 16, 16], [32, 8, 16, 16]):
+                yield {"cls": "Revolve", "n": n, "s": s, "c8": c8, "passes": 1}
 
 
 def check_witness(data, show=False):
@@ -123,8 +134,9 @@ def run(prop, args):
     res = R.pmap(_case, box)
     count, shards = (90, 16) if tier == "quick" else (1500, 16)
     gen = [x for part in R.pmap(_gen, [(tier, args.seed, k, count) for k in range(shards)], chunksize=1) for x in part]
-    rep.exhaustive = [{"box": "Multistage n<=%d every s in 0..n+1, every RAM/DISK split, both trajectories; Revolve n<=%d every s, 3 cost vectors" % ((14, 14) if tier == "quick" else (26, 26)),
-                       "cases": len(box), "exhaustive": True}]
+    rep.exhaustive = [{"box": "Multistage n<=%d every s in 0..n+1, every RAM/DISK split, both trajectories; Revolve n<=%d every s, 3 cost vectors; "
+                       "then every (n, s) up to n=%d with splits (s,0),(0,s),(1,s-1), both trajectories, Revolve with 2 cost vectors" % (
+                           (14, 14, 64) if tier == "quick" else (26, 26, 150)), "cases": len(box), "exhaustive": True}]
     for out in res + gen:
         cfg = out["cfg"]
         rep.evaluations += 1
